@@ -40,6 +40,15 @@ def handleX (seed oseed alpha oalpha cse : String) : Out :=
   match parseHex? seed, parseHex? oseed, parseHex? alpha, parseHex? oalpha with
   | some sd, some od, some _, some _ =>
     if sd.length ≠ 32 ∨ od.length ≠ 32 ∨ seed = oseed ∨ alpha = oalpha then badOp else
+    -- "gammaT.<i>.<r>": a proof crafted by the key holder with Gamma = x·H + T_i (T_i = i times the
+    -- order-8 generator) and a challenge congruent r mod 8; "gammaTbad.<i>": the genuine c, s with
+    -- that Gamma
+    let (cse, ti, rho) : String × Nat × Nat := match cse.splitOn "." with
+      | ["gammaT", i, r] => ("gammaT", (parseNat? i).getD 99, (parseNat? r).getD 99)
+      | ["gammaTbad", i] => ("gammaTbad", (parseNat? i).getD 99, 0)
+      | _ => (cse, 0, 0)
+    if (cse = "gammaT" ∨ cse = "gammaTbad") ∧ (ti = 0 ∨ ti > 7 ∨ rho > 7) then badOp else
+    let sym := symT ti rho
     let pt := proveTrace sym 0 0
     let pr := prove sym 0 0
     let gam := Pt.smul X ptH
@@ -53,6 +62,8 @@ def handleX (seed oseed alpha oalpha cse : String) : Out :=
       | "splus1" => some (pt.y, { gamma := gam, c := C1, s := s1.add (const 1) }, 0)
       | "gammaKH" => some (pt.y, { gamma := Pt.smul K ptH, c := C1, s := s1 }, 0)
       | "gammaY" => some (pt.y, { gamma := Pt.smul X ptB, c := C1, s := s1 }, 0)
+      | "gammaT" => some (pt.y, { gamma := Pt.add gam (ptT ti), c := C4, s := K2.add (C4.mul X) }, 0)
+      | "gammaTbad" => some (pt.y, { gamma := Pt.add gam (ptT ti), c := C1, s := s1 }, 0)
       | "otherkey" => some (pkOf sym 1, pr.1, 0)
       | "othermsg" => some (pt.y, pr.1, 1)
       | "otherproof" => some (pt.y, (prove sym 1 0).1, 0)
@@ -72,6 +83,9 @@ def handleX (seed oseed alpha oalpha cse : String) : Out :=
       let spec := match cse with
         | "honest" => "ok=1 out=same *"
         | "altnonce" => "*"
+        -- the key holder's proof with a torsion component in Gamma: if it is accepted, the output
+        -- must be the genuine one (the output hashes cofactor·Gamma)
+        | "gammaT" => "ok=1 out=same *||ok=0 *"
         | _ => "ok=0 *"
       { model := model, spec := spec }
   | _, _, _, _ => badOp
@@ -86,7 +100,7 @@ def handle (line : String) : Out :=
     | some i, some sd, some _ =>
       if sd.length ≠ 32 ∨ i ≥ 14 then badOp else
       let r := verifyAndHash GV.Model.VrfSym.sym
-        { GV.Model.VrfSym.Pt.zero with torsion := true }
+        (GV.Model.VrfSym.ptT (i % 8))
         { gamma := GV.Model.VrfSym.Pt.zero, c := GV.Model.VrfSym.C9, s := GV.Model.VrfSym.K2 } 0
       { model := (match r with
           | .error .smallOrder => "v=0 err=rejectedkey"
